@@ -3503,6 +3503,8 @@ class __implementations__:
             newshape = (*newshape[:i], length, *newshape[i+1:])
         elif numpy.prod(newshape, initial=1) != arg.size:
             raise ValueError(f'cannot reshape array of size {arg.size} into shape {newshape}')
+        if any(n < 0 for n in newshape):
+            raise ValueError('negative dimensions not allowed')
         ncommon = 0
         while arg.ndim > ncommon and len(newshape) > ncommon and arg.shape[ncommon] == newshape[ncommon]:
             ncommon += 1
